@@ -153,6 +153,30 @@ def replay(spec):
         if problems:
             return {"reproduced": True, "observed": problems[:3], "expected": "copy behaves like the original"}
     tp = np.arange(0, 3, 0.5)
+    # a model copied while it is NOT initialised since its last edit (the usual state right after create_reaction / create_rule calls)
+    for name, f in (("pickle", lambda m: pickle.loads(pickle.dumps(m))), ("deepcopy", copy.deepcopy)):
+        try:
+            Mu = Cls(**dict(args, reactions=args["reactions"][:1], rules=args["rules"][:1]))
+            for rx in args["reactions"][1:]:
+                Mu.create_reaction(*rx)
+            Mu.create_rule(*args["rules"][1])
+            Mc = f(Mu)                      # copied before any initialisation has seen the later reactions
+            for m_ in (Mu, Mc):
+                m_.py_initialize()
+            if Mc.py_get_update_array().shape != Mu.py_get_update_array().shape or not np.array_equal(Mc.py_get_update_array(), Mu.py_get_update_array()) \
+                    or not np.array_equal(Mc.py_get_delay_update_array(), Mu.py_get_delay_update_array()):
+                problems.append("%s of a model edited after its last initialisation: the copy has stoichiometry of shape %s, the original %s"
+                                % (name, Mc.py_get_update_array().shape, Mu.py_get_update_array().shape))
+            elif Mc.get_rules() != Mu.get_rules() or Mc.get_parameter_dictionary() != Mu.get_parameter_dictionary():
+                problems.append("%s of a model edited after its last initialisation: rules / parameters differ" % name)
+            elif which != "lineage":
+                o = [py_simulate_model(tp, Model=m_).to_numpy() for m_ in (Mu, Mc)]
+                if o[0].shape != o[1].shape or not np.allclose(o[0], o[1]):
+                    problems.append("%s of a model edited after its last initialisation: the deterministic simulations differ" % name)
+        except Exception as e:
+            problems.append("%s of a model edited after its last initialisation fails: %s: %s" % (name, type(e).__name__, str(e)[:120]))
+    if problems:
+        return {"reproduced": True, "observed": problems[:3], "expected": "copy behaves like the original"}
     for name, f in (("pickle", lambda m: pickle.loads(pickle.dumps(m))), ("deepcopy", copy.deepcopy)):
         try:
             M2 = f(M)
